@@ -572,6 +572,9 @@ def run(ctx) -> str:
 
     # match-expression text is unescaped by helpers.instantiate_escaped_symbols: its recognised algorithm (placeholder freshness, table, order) is shared with C11
     ctx.guarded("U13", lambda: c11.rule_b1(ctx))
+    from . import c08
+
+    ctx.guarded("U14", lambda: c08.rule_d7(ctx, "U14"))
     ctx.assume("generated parser/lexer files under src/isla/isla_language are in sync with IslaLanguage.g4 (literalNames cross-checked)")
     ctx.assume("ANTLR runtime member names are read from the installed antlr4 package sources")
     return EXPLANATION
